@@ -161,11 +161,13 @@ func ruleTabPriority(c *Ctx, r *R) {
 			haveRank := false
 			if rfl := c.localFuncLit(fd, strings.TrimPrefix(ret.Args[0].Name, "var.")); strings.HasPrefix(ret.Args[0].Name, "var.") && rfl != nil && len(rfl.Type.Params.List) == 1 && len(rfl.Type.Params.List[0].Names) == 1 {
 				rin := newInterp(c)
+				rin.Inline = c.isNewHelper
 				rps = rin.ExecLit(rfl, st.Clone(), map[string]*T{rfl.Type.Params.List[0].Names[0].Name: tVar(nil, "E")})
 				haveRank = true
 			} else if hfd := c.Func(ret.Args[0].Name); hfd != nil && hfd.Body != nil && len(hfd.Type.Params.List) == 1 && len(hfd.Type.Params.List[0].Names) == 1 {
 				if ho := c.Info.Defs[hfd.Name]; ho != nil && c.isNewHelper(ho) {
 					rin := newInterp(c)
+					rin.Inline = c.isNewHelper
 					rps = rin.ExecFunc(hfd, map[string]*T{hfd.Type.Params.List[0].Names[0].Name: tVar(nil, "E")})
 					haveRank = true
 				}
